@@ -10,6 +10,7 @@ HARNESSES = {
         "turn": (".", "turn"),
     },
     "H2": {"pkg": ".", "run": "^TestVerifH2$", "streams": ["h2"], "toolchain": "go1.26.0", "timeout": (900, 3000)},
+    "H9": {"pkg": ".", "run": "^TestVerifH9$", "streams": ["h9"], "toolchain": "go1.26.0", "timeout": (300, 600)},
     "H1": {"pkg": "./internal/proto/", "run": "^TestVerifH1$", "streams": ["h1"], "toolchain": None,
            "timeout": (600, 2400)},
 }
@@ -110,6 +111,22 @@ PROPS.update({
                 env={"VERIF_H2_MODE": "tcp"}),
 })
 
+PROPS["C18"] = {
+    "modules": ["TurnModel.Props.C18"], "gen": True,
+    "harnesses": ["H9"], "view": ["slowcb"], "outs": None,
+    "alarms": ["liveness-lost", "allocation-left", "harness-died"],
+    "rule": "regenerated obligations: xlate re-emits the lock skeleton of every function/closure touching a sync mutex (63 units, 26 lock ids), the call/guard "
+            "skeleton of the request handlers and the AddPermission ordering facts from /repo's working tree on every run; the kernel re-checks balanced/guarded "
+            "by decide. Failing-input search / supporting run: H9 makes each lifecycle callback slow (1 s / 4 s virtual) and tears the allocation down during it by "
+            "each cause (expiry, Refresh 0, relay error, server close): 56 scenarios with liveness probe; distinct = (callback, cause, delay) triples",
+    "trusted_base": LEAN_TB + ["translator /verif/xlate (go/packages + go/types, ~700 lines): that the emitted skeleton has the lock/guard/call structure of the Go function; "
+                               "it refuses goto/labels and resolves mutexes by declared field, not by name",
+                               "soundness theorem of the checker (balanced_sound, chk_no_fault) is proved once for all programs"],
+    "assumptions": ["PARTIAL: data-race freedom in the sense of the Go memory model and scheduler-dependent deadlock outside the modelled mutexes are outside any Lean model; "
+                    "the guarded/balanced skeleton theorems are the provable core, H9 and the race detector are supporting evidence only",
+                    "lock-order acyclicity across functions is not yet derived (no callee summaries in the lock skeleton)"],
+}
+
 PROOF_NOTE = ("Trusted: Lean 4.33.0 kernel, axioms propext/Classical.choice/Quot.sound only (audited per theorem on every run), "
               "the hand-written model's tie to the code = correspondence harness + compiled driver (agreement observed on generated cases only). ")
 
@@ -175,6 +192,11 @@ MANIFEST_TEXT.update({
                "PARTIAL: io.Copy and TCP are the runtime's.",
                "DESIGN.md §6 C16", "Lean 4 invariants + decision theorems + differential correspondence on TCP-relay histories",
                "Partial: byte piping by io.Copy is observed, not proved."),
+    "C18": _mt("lock_checker_sound (for ALL programs: accepted skeleton => no lock held at any exit, no release of an unheld lock), all_functions_balanced over the skeletons regenerated "
+               "from the current source, handlers_guarded (every state-changing call dominated by auth/owner/grant/family/valid guards), addperm_vs_close over all interleavings. "
+               "PARTIAL: Go-memory-model data races and cross-function lock order are outside the model.",
+               "DESIGN.md §6 C18", "Lean 4 verified checker (reflection) over skeletons regenerated by a Go translator + slow-callback teardown scenarios",
+               "Partial: see assumptions; the translator is trusted to preserve lock/guard/call structure."),
     "C19": _mt("resp_tid_dst on every path, binding_truthful, allocate_truthful (with relay uniqueness), retransmit_idempotent, mismatch_437.",
                "DESIGN.md §6 C19", "Lean 4 theorems over all request paths + differential correspondence of every response"),
 })
